@@ -26,7 +26,7 @@ ALL_PROPS = ['C%02d' % i for i in range(1, 18)]
 ORACLES = {'C01': 'solvency', 'C02': 'solvency', 'C04': 'solvency', 'C06': 'exit_liveness', 'C08': 'approver_tracks_size',
            'C09': 'solvency', 'C10': 'mechanism', 'C11': 'bid_consistency'}
 # properties with strict-mode (liveness) clauses
-STRICT_PROPS = {'C06'}
+STRICT_PROPS = {'C06', 'C07', 'C13'}
 
 
 def log(msg):
@@ -291,8 +291,9 @@ def main():
             res = run_verus(out, extra + ['--smt-option', 'smt.random_seed=7'])
             os.environ.pop('VERIF_RLIMIT')
             failures, undecided, compile_errors = classify(res['diags'], lm, out)
+        vac = vacuity_run(mode, prop, tag) if not failures and not compile_errors else {'skipped': 'main run has failures'}
         results[mode] = {'report': report, 'lm': lm, 'res': res, 'failures': failures, 'undecided': undecided,
-                         'compile_errors': compile_errors, 'path': out, 'text': open(out).read()}
+                         'compile_errors': compile_errors, 'path': out, 'text': open(out).read(), 'vacuity': vac}
     code = finish(prop, a.tier, seed, results, t_start)
     for mode in results:
         for ext in ('', '.report.json', '.linemap.json'):
@@ -301,6 +302,41 @@ def main():
             except OSError:
                 pass
     return code
+
+
+def vacuity_run(mode, prop, tag):
+    """twins that claim `r is Err` / `false` under the same preconditions, and the consistency probes: each must FAIL"""
+    out = os.path.join(GEN_DIR, 'vac_%s_%s.rs' % (mode, tag))
+    try:
+        report, linemap = gen.generate(mode, out, [prop])
+    except (gen.GenError, gen.LexError) as e:
+        return {'error': 'generation failed: %s' % e}
+    lm = LineMap(linemap)
+    os.environ['VERIF_RLIMIT'] = '10'
+    res = run_verus(out, timeout=600)
+    os.environ.pop('VERIF_RLIMIT')
+    twins = [f for f in lm.functions if '#vac#' in f['qname']]
+    refuted = set()
+    compile_err = None
+    for d in res['diags']:
+        if d.get('level') != 'error':
+            continue
+        if d.get('code') is not None:
+            compile_err = d.get('message')
+        for sp in d.get('spans', []):
+            for f in twins:
+                if f['line_start'] <= sp['line_start'] <= f['line_end']:
+                    refuted.add(f['qname'])
+    for ext in ('', '.report.json', '.linemap.json'):
+        try:
+            os.remove(out + ext)
+        except OSError:
+            pass
+    if compile_err or res['json'] is None:
+        return {'error': 'vacuity file did not compile: %s' % (compile_err or res.get('stderr_tail', '')[-300:])}
+    not_refuted = sorted(f['qname'] for f in twins if f['qname'] not in refuted)
+    return {'twins': len(twins), 'refuted_as_required': len(refuted), 'verified_but_must_fail': not_refuted,
+            'wall_s': round(res['wall_s'], 1)}
 
 
 def relevant(props, prop):
@@ -350,6 +386,15 @@ def finish(prop, tier, seed, results, t_start):
                           'uncontracted': r['report'].get('uncontracted'),
                           'rules': r['report']['rules'],
                           'cheat_scan': cheat_scan(r['text'])}
+        vac = r.get('vacuity') or {}
+        per_mode[mode]['vacuity'] = vac
+        if vac.get('error'):
+            undecided_msgs.append('%s: vacuity guard could not run: %s' % (mode, vac['error']))
+        elif vac.get('verified_but_must_fail'):
+            undecided_msgs.append('%s: contradictory precondition or unreachable Ok exit (vacuous proof) in %s'
+                                  % (mode, ', '.join(vac['verified_but_must_fail'])))
+        elif 'twins' in vac and vac['twins'] == 0:
+            undecided_msgs.append('%s: vacuity guard generated no twin' % mode)
         if r['res']['json'] is None and not r['compile_errors']:
             undecided_msgs.append('%s: verifier produced no result (%s)' % (mode, r['res'].get('stderr_tail', '')[-300:]))
         for label, fs in failed_labels.items():
